@@ -214,6 +214,7 @@ def table(w, job, part):
         if (s2, e2) != (S, E): part.observe('instance did not reach the intended flag pair', {'kind': kind, 'origin': origin, 'want': (S, E), 'got': (s2, e2)})
         if s2 is not True and e2 is not False: continue
         reveal_cells(w, part, kind, origin, bool(s2), bool(e2), h, known, 'token' if tok else 'session')
+        oneway_cells(w, part, kind, origin, h, known, 'token' if tok else 'session')
         # a few calls that legitimately produce output with/about the key: their replies run through the leak scanner
         x = w.x
         x.call('C_GetObjectSize', s=w.s, o=h)
@@ -222,6 +223,41 @@ def table(w, job, part):
         x.call('C_FindObjectsInit', s=w.s, tmpl=[]); x.call('C_FindObjects', s=w.s, max=50); x.call('C_FindObjectsFinal', s=w.s)
         x.call('C_GetAttributeValue', s=w.s, o=h, tmpl=[{'t': t, 'buf': 256} for t in sorted(w.ck.ATTR) if w.ck.ATTR[t] not in ('CKA_WRAP_TEMPLATE', 'CKA_UNWRAP_TEMPLATE', 'CKA_DERIVE_TEMPLATE')])
         x.call('C_DestroyObject', s=w.s, o=h)
+
+BYTES = (0x00, 0x01, 0x02, 0x80, 0xFF)          # CK_BBOOL as raw bytes: the two canonical values and three non-canonical "true"s
+def bclass(b): return 'canonical' if b in (0, 1) else 'non-canonical'
+def still_protected(w, part, fn, h, kind, was, known, ik, wit):
+    """judge a set/copy attempt by its EFFECT on object h: was = (S, E, WT) before.  Only lost protection is a violation."""
+    x = w.x; s3, e3, w3 = w.flags(h); lost = False
+    for nm, bad in (('CKA_SENSITIVE', was[0] is True and s3 is not True), ('CKA_EXTRACTABLE', was[1] is False and e3 is not False), ('CKA_WRAP_WITH_TRUSTED', was[2] is True and w3 is not True)):
+        if bad: lost = True; part.violation(f'{fn}|{ik},{nm}|protection-removed', f'{fn} produced an object whose {nm} no longer reads protected', wit)
+    if (was[0] is True or was[1] is False) and known:
+        a, v = next(iter(known.items())); r = x.call('C_GetAttributeValue', s=w.s, o=h, tmpl=[{'t': w.ck[a], 'buf': len(v) + 8}]); e = (r.get('tmpl') or [{}])[0]
+        if r['rv'] == 0 or e.get('len') != -1 or e.get('changed', 0) != 0:
+            lost = True; part.violation(f'{fn}|{ik},then-C_GetAttributeValue|revealed', f'after {fn} the secret attribute {a} is answered with rv={r["rvname"]} len={e.get("len")} changed={e.get("changed")}', wit)
+    if was[1] is False or was[2] is True:
+        r = x.call('C_WrapKey', s=w.s, mech=x.M('CKM_AES_KEY_WRAP_PAD'), wkey=w.wk, key=h, buf=4096)       # w.wk is NOT trusted
+        if r['rv'] == 0: lost = True; part.violation(f'{fn}|{ik},then-C_WrapKey|wrapped', f'after {fn} the key can be wrapped under an untrusted key although it was {"unextractable" if was[1] is False else "WRAP_WITH_TRUSTED"}', wit)
+    return (s3, e3, w3), lost
+
+def oneway_cells(w, part, kind, origin, h, known, store):
+    """every one-way flag x raw CK_BBOOL byte x {set, copy}, judged by effect"""
+    x = w.x; kt = K.ktype(kind) if kind != 'GEN32' else 'CKK_GENERIC_SECRET'
+    x.call('C_SetAttributeValue', s=w.s, o=h, tmpl=x.T([('CKA_WRAP_WITH_TRUSTED', True)]))       # allowed direction
+    was = w.flags(h)
+    for attr, on in (('CKA_SENSITIVE', was[0] is True), ('CKA_EXTRACTABLE', was[1] is False), ('CKA_WRAP_WITH_TRUSTED', was[2] is True)):
+        if not on: continue
+        for b in BYTES:
+            for tm, shape in (([(attr, {'bool': b})], 'alone'), ([('CKA_LABEL', b'x'), (attr, {'bool': b})], 'after-label')):
+                for op, fn in (('set', 'C_SetAttributeValue'), ('copy', 'C_CopyObject')):
+                    r = x.call(fn, s=w.s, o=h, tmpl=x.T(tm)); tgt = h if op == 'set' else (r['h'] if r['rv'] == 0 else None)
+                    part.case((kind, origin, 'one-way', attr, hex(b), shape, op, f'S={int(bool(was[0]))},E={int(bool(was[1]))}'), nontrivial=True); part.count('oneway_cells')
+                    if tgt is None: continue
+                    if op == 'copy' and w.is_shell(h, tgt): x.call('C_DestroyObject', s=w.s, o=tgt); continue
+                    ik = f'{kt}/{origin},{attr}:=byte-{bclass(b)}'
+                    now, lost = still_protected(w, part, fn, tgt, kind, was, known, ik, {'kind': kind, 'origin': origin, 'store': store, 'attr': attr, 'byte': hex(b), 'template': [n for n, _ in tm], 'rv': r['rvname'], 'flags_before': was})
+                    if op == 'copy': x.call('C_DestroyObject', s=w.s, o=tgt)
+                    elif lost: return          # the object itself lost its protection: nothing more to learn from it
 
 # ---------------------------------------------------------------- attack sequences
 class Prot:
@@ -259,19 +295,18 @@ def attacks(w, job, part):
                 if r['rv'] == 0 and p.WT is True and wkn != 'trusted': part.violation(f'C_WrapKey|{mech},key={K.ktype(p.kind)},CKA_WRAP_WITH_TRUSTED=true,wrapping-key-untrusted|wrapped', 'a CKA_WRAP_WITH_TRUSTED key was wrapped under a key whose CKA_TRUSTED is not true', wit())
                 if r['rv'] == 0 and p.WT is True and wkn == 'trusted': part.count('wrapped_under_trusted_key_ok')
             elif act in ('set', 'copy'):
-                clear = [(a, v) for a, v, on in (('CKA_SENSITIVE', False, p.S is True), ('CKA_EXTRACTABLE', True, p.E is False), ('CKA_WRAP_WITH_TRUSTED', False, p.WT is True)) if on]
+                clear = [a for a, on in (('CKA_SENSITIVE', p.S is True), ('CKA_EXTRACTABLE', p.E is False), ('CKA_WRAP_WITH_TRUSTED', p.WT is True)) if on]
                 if not clear: continue
-                tm = rnd.sample(clear, rnd.randint(1, len(clear)))
+                # raw CK_BBOOL bytes: whether a non-canonical byte is rejected or normalised is the token's choice -- judged by effect only
+                tm = [(a, {'bool': rnd.choice(BYTES)}) for a in rnd.sample(clear, rnd.randint(1, len(clear)))]; vals = '+'.join(sorted({bclass(v['bool']) for _, v in tm}))
                 if rnd.random() < .5: tm.insert(rnd.randint(0, len(tm)), ('CKA_LABEL', b'x'))
                 if act == 'copy' and rnd.random() < .4: tm.append(('CKA_TOKEN', rnd.random() < .5))
                 fn = 'C_SetAttributeValue' if act == 'set' else 'C_CopyObject'
-                r = x.call(fn, s=w.s, o=p.h, tmpl=x.T(tm)); steps.append((act, [n for n, _ in tm], p.h, r['rvname'])); part.case(('attack', act, tuple(sorted(n for n, _ in tm if n != 'CKA_LABEL')), tk), nontrivial=True); part.count('attack_steps')
+                r = x.call(fn, s=w.s, o=p.h, tmpl=x.T(tm)); steps.append((act, [(n, (hex(v['bool']) if isinstance(v, dict) else '')) for n, v in tm], p.h, r['rvname'])); part.case(('attack', act, tuple(sorted(n for n, _ in tm if n != 'CKA_LABEL')), vals, tk), nontrivial=True); part.count('attack_steps')
                 tgt = p.h if act == 'set' else (r['h'] if r['rv'] == 0 else None)
                 if tgt and act == 'copy' and w.is_shell(p.h, tgt): x.call('C_DestroyObject', s=w.s, o=tgt); tgt = None
                 if tgt:
-                    s3, e3, w3 = w.flags(tgt)
-                    for nm, was, now, lost in (('CKA_SENSITIVE', p.S, s3, p.S is True and s3 is not True), ('CKA_EXTRACTABLE', p.E, e3, p.E is False and e3 is not False), ('CKA_WRAP_WITH_TRUSTED', p.WT, w3, p.WT is True and w3 is not True)):
-                        if lost: part.violation(f'{fn}|{K.ktype(p.kind)},{nm}|protection-removed', f'{fn} produced an object whose {nm} went from {was} to {now}', wit())
+                    (s3, e3, w3), _ = still_protected(w, part, fn, tgt, p.kind, (p.S, p.E, p.WT), p.known, f'{K.ktype(p.kind)},bytes-{vals},in-sequence', wit())
                     if act == 'copy': pool.append(Prot(tgt, p.kind, s3, e3, w3, p.known, 'copy'))
                     else: p.S, p.E, p.WT = s3, e3, w3
             elif act == 'copy-plain':
@@ -336,7 +371,7 @@ def worker(job):
 def run(ctx):
     ctx.rule = ('(1) per key kind (AES16/32, DES, DES2, DES3, generic 16/64, six HMAC key types, RSA/DSA/DH/EC/Ed25519/X25519 private) x origin (created, generated then flipped, unwrapped, derived, copied with flag '
                 'template, copy of a protected key, copy-of-copy) x (SENSITIVE,EXTRACTABLE) in {(1,1),(0,0),(1,0)} x every secret attribute x template shape {alone, mixed with public attributes at position '
-                '0/1/2, named twice} x buffer {NULL,0,len-1,len,len+64}; (2) every reply byte of every later call scanned for >= 8 consecutive bytes of any protected value; (3) seeded attack sequences '
+                '0/1/2, named twice} x buffer {NULL,0,len-1,len,len+64}; (2) every reply byte of every later call scanned for >= 8 consecutive bytes of any protected value; (2b) every one-way flag in its protected state x raw CK_BBOOL byte {0x00,0x01,0x02,0x80,0xFF} x {set, copy}, judged by EFFECT (flag still reads protected, reveal still refused with untouched buffer, wrap under an untrusted key still refused); (3) seeded attack sequences '
                 '(wrap under untrusted/trusted/RSA keys, set/copy templates clearing a protection, CONCATENATE_* derivations with the protected key as base or as other key, reads).  one evaluation = one '
                 'C_GetAttributeValue cell or one attack step; distinct = (kind, origin, flags, attribute, shape, buffer) / (step kind, mechanism, target state); non-trivial = the readable control instance of '
                 'the same (kind, origin) returned exactly the value the driver believes AND the instance is protected')
@@ -353,7 +388,8 @@ def run(ctx):
         jobs.append(dict(paths=p, hdr=p['hdr'], scratch=ctx.scratch, what='attack', backend=be, name=f'{be}-atk{i}', rseed=ctx.seed * 13 + i, seeds=[ctx.seed * 1000003 + i + j for j in range(per)], steps=ctx.q(10, 14)))
     jobs.sort(key=lambda j: 0 if j.get('kind') == 'RSApriv' else 1)
     for part in pmap(worker, jobs, ctx.nproc): ctx.merge(part)
-    ctx.assumptions += ['the leak scan sees verbatim substrings only (an encoded leak is outside what an output scan can see)',
+    ctx.assumptions += ['set/copy attempts are judged by their effect only: whether a non-canonical CK_BBOOL byte is rejected or normalised is the token\'s choice; "protection removed" (flag, reveal or wrap) is the violation',
+                        'the leak scan sees verbatim substrings only (an encoded leak is outside what an output scan can see)',
                         'asymmetric key material is fixed (vlib/keys_fixed2.py): readable instances are read only before the value is declared protected; symmetric values are fresh per object',
                         'inheritance on derivation is demanded only for the CONCATENATE_* mechanisms (the statement names them); WRAP_WITH_TRUSTED is not inherited by derived keys (v2.40 does not say so)']
 if __name__ == '__main__': main('C02', run, min_evaluations=3000, min_distinct=1000)
